@@ -1647,7 +1647,7 @@ BUILTINS = {
     "tuple", "dict", "bytes", "abs", "enumerate", "zip", "sorted", "hex", "round", "set",
     "Exception", "ValueError", "RuntimeError", "OverflowError", "getattr", "setattr", "hasattr", "callable", "dir",
     "any", "all", "next", "iter", "frozenset", "sum", "reversed", "map", "filter", "print", "divmod", "bytearray", "repr", "ord", "chr",
-    "TypeError", "KeyError", "IndexError", "AttributeError", "NotImplementedError", "StopIteration", "property",
+    "TypeError", "KeyError", "IndexError", "AttributeError", "NotImplementedError", "StopIteration", "property", "open",
 }
 
 
